@@ -63,6 +63,11 @@ class Unrenderable(Exception):
     pass
 
 
+class TemporaryInRefs(Exception):
+    """The real JSON marks (`__id`) an object that is not part of the live graph: the encoder
+    registered a temporary in its refs table (keyed by id(), the id can be reused)."""
+
+
 def coq_prim(x):
     if x is None:
         return "PNone"
@@ -120,8 +125,10 @@ def head_and_kids(obj):
     if isinstance(obj, ca.SpecType):
         return f"(HSpecType {cstr(obj.value)})", []
     if isinstance(obj, fl.Action):
-        d = obj.to_dict()
-        return "(HAction " + clist([cstr(k) for k in d]) + ")", list(d.values())
+        # the LIVE attributes, in the order of to_dict() (to_dict() itself may hand out temporaries)
+        keys = ["uid", "name", "flow_uid", "status", "context", "start_event_arguments", "flow_scope_count"]
+        vals = [obj.uid, obj.name, obj.flow_uid, obj.status.name, obj.context, obj.start_event_arguments, obj.flow_scope_count]
+        return "(HAction " + clist([cstr(k) for k in keys]) + ")", vals
     if isinstance(obj, datetime):
         return f"(HDatetime {cstr(obj.isoformat())})", []
     if isinstance(obj, Enum):
@@ -191,7 +198,7 @@ def coq_json(j, idmap):
     for k, v in j.items():
         if wrapper and k == "__id" and isinstance(v, int) and not isinstance(v, bool):
             if v not in idmap:
-                raise Unrenderable("__id of an object outside the rendered graph (temporary object)")
+                raise TemporaryInRefs(str(v))
             items.append(f'("__id", JInt {C.coq_Z(idmap[v])})')
         elif wrapper and j.get("__type") == "RailsConfig" and k == "value":
             items.append('("value", JInt 0)')
@@ -392,7 +399,7 @@ def gen_state_graph(rng, kinds):
     return state
 
 
-REAL_STATE_PROGRAMS = ["two-flows-one-action", "shared-action-owner-finishes", "action-status-through-reference",
+REAL_STATE_PROGRAMS = ["three-live-actions", "actions-in-two-flows", "two-flows-one-action", "shared-action-owner-finishes", "action-status-through-reference",
                        "set-variable", "finished-child-then-idle", "activated-restarts", "regex-variable", "int-keys"]
 OR_GROUP_PROGRAM = 'flow main\n  match E1() or E2()\n  send Out1(v=1)\n  match E3() and E2()\n  send Out2(v=2)\n  match Never()\n'
 
@@ -424,6 +431,21 @@ def real_states():
     return out
 
 
+def oracle_applicable(root):
+    """The shape-and-sharing oracle applies to graphs the code is expected to restore exactly: no
+    list referenced twice (recorded finding) and, for States, heads with both callbacks."""
+    fl, ser, ca = _impl()
+    fg = _shape_flags(root)
+    if fg["shared_list"] or fg["cyclic"] or fg["other"]:
+        return False
+    if isinstance(root, fl.State):
+        for f in root.flow_states.values():
+            for hd in f.heads.values():
+                if hd.position_changed_callback is None or hd.status_changed_callback is None:
+                    return False
+    return True
+
+
 def x1_case(root, mode):
     """Run the real encoder/decoder on `root`; -> (coq case term, info) ; mode 0/1."""
     fl, ser, ca = _impl()
@@ -445,10 +467,29 @@ def x1_case(root, mode):
     except Exception as e:  # noqa
         info["enc"] = type(e).__name__ + ":" + str(e)[:60]
     if info["enc"] == "ok":
-        cj = "(Some " + coq_json(d, idmap) + ")"
+        try:
+            cj = "(Some " + coq_json(d, idmap) + ")"
+        except TemporaryInRefs as ex:
+            # the model (which never registers temporaries) will disagree with this JSON; keep the
+            # case: the marks of temporaries are renumbered to -1
+            info["temporary_in_refs"] = True
+            tmp = dict(idmap)
+
+            class _M(dict):
+                def __contains__(self, k):
+                    return True
+
+                def __getitem__(self, k):
+                    return tmp.get(k, -1)
+
+            cj = "(Some " + coq_json(d, _M()) + ")"
         try:
             decoded = ser.json_to_state(js) if mode == 1 else ser.decode_from_dict(json.loads(js), {})
-            cd = "(Some " + canon_py(decoded, root) + ")"
+            cd_inner = canon_py(decoded, root)
+            cd = "(Some " + cd_inner + ")"
+            # direct oracle, independent of the model: the restored graph has the canonical form
+            # (first-visit numbering = shape + sharing) of the original
+            info["same_shape_and_sharing"] = (cd_inner == canon_py(root)) if oracle_applicable(root) else None
         except RecursionError:
             info["dec"] = "RecursionError"
         except Exception as e:  # noqa
@@ -544,7 +585,8 @@ def gen_program(rng, stats):
         if refs:
             c += [f"${rng.choice(refs)}.flow_id", f"${rng.choice(refs)}.hierarchy_position"]
         if acts:
-            c += [f"${rng.choice(acts)}.name", f"str(${rng.choice(acts)}.status)", f"str(${rng.choice(acts)}.status)"]
+            c += [f"${rng.choice(acts)}.name", f"str(${rng.choice(acts)}.status)", f"str(${rng.choice(acts)}.status)",
+                  f"${rng.choice(acts)}.p", f"${rng.choice(acts)}.start_event_arguments", f"${rng.choice(acts)}.p"]
         if evs:
             c += [f"${rng.choice(evs)}.name"]
         return rng.choice(c) if c else "1"
@@ -641,6 +683,8 @@ PROBES = {
     "shared-action-owner-finishes": HELPERS + '\nflow main\n  start s1\n  start s2\n  match Never()\n',
     "shared-action-awaited": HELPERS + '\nflow main\n  start s1\n  start s3\n  match Never()\n',
     "action-status-through-reference": HELPERS + '\nflow main\n  start MyAction(x=1) as $a0\n  start f5 $a0\n  match E1()\n  send MainReport(s=str($a0.status))\n  match $a0.Finished()\n  send Fin(s=str($a0.status))\n  match Never()\n',
+    "three-live-actions": 'flow main\n  start MyAction(p="one") as $a0\n  start OtherAction(q="wave", n=2) as $a1\n  start ThirdAction(r={"idle"}) as $a2\n  match E2()\n  send Out1(a=$a0.p, b=$a1.q, c=len($a2.r), d=$a1.start_event_arguments)\n  match E3()\n  send Out2(v=1)\n  match Never()\n',
+    "actions-in-two-flows": HELPERS + '\nflow k1\n  start MyAction(p="k1") as $a\n  match E2()\n  send K1(v=$a.p, s=str($a.status))\n\nflow k2\n  start MyAction(p="k2") as $a\n  match E2()\n  send K2(v=$a.p, s=str($a.status))\n\nflow main\n  start k1\n  start k2\n  start MyAction(p="main") as $a0\n  match E2()\n  send Out1(v=$a0.p)\n  match Never()\n',
     "activated-restarts": HELPERS + '\nflow main\n  activate g1\n  activate g2\n  match E2()\n  send Out1(v=1)\n  match Never()\n',
 }
 
@@ -1294,6 +1338,7 @@ def run(tier, seed, replay=None):
         except Unrenderable as ex:
             kinds["unrenderable"] = kinds.get("unrenderable", 0) + 1
             continue
+        info["case"] = {"kind": "x1", "index": i, "mode": mode}
         terms.append(term)
         infos.append(info)
         hsh = C.canon_hash(term)
@@ -1311,6 +1356,7 @@ def run(tier, seed, replay=None):
                 alpha_terms.append(f"({hp}, {rt}, {_abstract_state(st, None, {})})")
             except Unrenderable:
                 continue
+            info["case"] = {"kind": "x1real", "state": name}
             terms.append(term)
             infos.append(info)
             real_terms.append(term)
@@ -1338,6 +1384,14 @@ def run(tier, seed, replay=None):
             if badn:
                 out.add_broken("correspondence:C11-bridge",
                                "BridgeDef.alpha on the rendered real State differs from the harness's abstraction: " + ", ".join(badn))
+    # direct oracle on the implementation for X1: same shape and sharing after the round trip
+    for inf in infos:
+        if inf.get("same_shape_and_sharing") is False or inf.get("temporary_in_refs"):
+            sig = "encoder-registers-temporary-object" if inf.get("temporary_in_refs") else "restored-graph-differs-in-shape-or-sharing"
+            out.findings.append(C.Finding(sig, "json_to_state(state_to_json(g)) is not isomorphic to g (object identities merged or split)"
+                                          + (": the JSON marks an object that is not part of the live graph" if inf.get("temporary_in_refs") else ""),
+                                          {**inf["case"], "tier": tier, "seed": seed, "nodes": inf["nodes"],
+                                           "required": "restored graph has the shape and the sharing of the live one"}))
     x1_dis = 0
     if okm and terms:
         bools, err = C.run_cases(PID + "_x1", PREAMBLE, terms, "check_case", shard=12)
